@@ -15,6 +15,7 @@ Definition PA off ts a r := exists n0, forall n, n0 <= n -> p_atom n off ts = Ok
 Definition PRS off ts l r := exists n0, forall n, n0 <= n -> p_rules n off ts = Ok (l, r).
 Definition PRL off ts x r := exists n0, forall n, n0 <= n -> p_rule n off ts = Ok (x, r).
 Definition PUR off ts l r := exists n0, forall n, n0 <= n -> p_urules n off ts = Ok (l, r).
+Definition PSR off ts l r := exists n0, forall n, n0 <= n -> p_srules n off ts = Ok (l, r).
 Definition PS off ts s r := exists n0, forall n, n0 <= n -> p_stmt n off ts = Ok (s, r).
 Definition PB off ts b r := exists n0, forall n, n0 <= n -> p_block n off ts = Ok (b, r).
 Definition PSS c ts l r := exists n0, forall n, n0 <= n -> p_stmts n c ts = Ok (l, r).
@@ -106,6 +107,26 @@ Proof.
   destruct t2; try congruence; rewrite H2 by lia; cbn [bind]; rewrite H3 by lia; reflexivity.
 Qed.
 
+Lemma PIF_none off ts cond c1 c2 r2 tb r3 :
+  PE off ts cond ((TTHEN, c1) :: (TEOL, c2) :: r2) ->
+  PB off (skip_eol ((TEOL, c2) :: r2)) tb r3 ->
+  match skip_eol r3 with (TELSE, _) :: _ => False | (TELIF, _) :: _ => False | _ => True end ->
+  PIF off ts (EIf cond tb None) r3.
+Proof.
+  intros (n1 & H1) (n2 & H2) N. ev2 n1 n2. cbn [p_if]. rewrite H1 by lia. cbn [bind]. rewrite H2 by lia. cbn [bind].
+  destruct (skip_eol r3) as [|[t c] r]; [reflexivity|]. destruct t; try reflexivity; contradiction.
+Qed.
+
+Lemma PIF_one_none off ts cond c1 t2 c2 r2 te r3 :
+  PE off ts cond ((TTHEN, c1) :: (t2, c2) :: r2) -> t2 <> TEOL ->
+  PE off ((t2, c2) :: r2) te r3 -> match r3 with (TELSE, _) :: _ => False | _ => True end ->
+  PIF off ts (EIf cond (Blk [SExpr te]) None) r3.
+Proof.
+  intros (n1 & H1) N (n2 & H2) NE. ev2 n1 n2. cbn [p_if]. rewrite H1 by lia. cbn [bind].
+  destruct t2; try congruence; rewrite H2 by lia; cbn [bind];
+    (destruct r3 as [|[t3 c3] r4]; [reflexivity|]; destruct t3; try reflexivity; contradiction).
+Qed.
+
 Lemma PAS_one off ts a r : PA off ts a r -> end_of_term r = true -> PAS off ts [a] r.
 Proof. intros (n1 & H1) E. ev1 n1. cbn [p_atoms]. rewrite H1 by lia. cbn [bind]. rewrite E. reflexivity. Qed.
 
@@ -152,6 +173,25 @@ Lemma PUR_def off ts r1 rest d rest' :
 Proof.
   intros (n1 & H1) B D (n2 & H2). ev2 n1 n2. cbn [p_urules]. rewrite H1 by lia. cbn [bind]. rewrite B, D.
   cbn [andb negb]. rewrite H2 by lia. reflexivity.
+Qed.
+
+Lemma PRS_string off ts l r' :
+  is_default_mr ts = false -> is_slit_rule ts = true -> PSR off ts l r' -> PRS off ts l r'.
+Proof. intros D S (n1 & H1). ev1 n1. cbn [p_rules]. rewrite D, S. apply H1; lia. Qed.
+
+Lemma PSR_more off ts r1 rest rs rest' :
+  PRL off ts r1 rest -> is_slit_rule rest = true -> PSR off rest rs rest' -> PSR off ts (r1 :: rs) rest'.
+Proof.
+  intros (n1 & H1) S (n2 & H2). ev2 n1 n2. cbn [p_srules]. rewrite H1 by lia. cbn [bind]. rewrite S.
+  rewrite H2 by lia. reflexivity.
+Qed.
+
+Lemma PSR_last off ts r1 rest d rest' :
+  PRL off ts r1 rest -> is_slit_rule rest = false -> is_default_mr rest && negb (bar_inside off rest) = false ->
+  PRL off rest d rest' -> PSR off ts [r1; d] rest'.
+Proof.
+  intros (n1 & H1) S D (n2 & H2). ev2 n1 n2. cbn [p_srules]. rewrite H1 by lia. cbn [bind]. rewrite S, D.
+  rewrite H2 by lia. reflexivity.
 Qed.
 
 Lemma PS_let off c r x c1 r2 e r3 :
@@ -227,8 +267,25 @@ Lemma r_atoms_ACons c a l : r_atoms inner (ACons c a l) = r_atom inner c a ++ r_
 Proof. reflexivity. Qed.
 Lemma r_term_LApp c a l : r_term inner c (LApp a l) = r_atom inner c a ++ r_atoms inner l.
 Proof. reflexivity. Qed.
-Lemma r_term_LIf1 c cd t e : r_term inner c (LIf1 cd t e) =
+Lemma r_term_LIf1 c cd t e : r_term inner c (LIf1 cd t (Some e)) =
   (TIF, c) :: r_sx inner inner cd ++ (TTHEN, inner) :: r_sx inner inner t ++ (TELSE, inner) :: r_sx inner inner e.
+Proof. reflexivity. Qed.
+Lemma r_term_LIf1_none c cd t : r_term inner c (LIf1 cd t None) =
+  (TIF, c) :: r_sx inner inner cd ++ (TTHEN, inner) :: r_sx inner inner t.
+Proof. reflexivity. Qed.
+Lemma r_term_LSMatch c tg b0 arms : r_term inner c (LSMatch tg b0 arms) =
+  (TMATCH, c) :: r_sx inner inner tg ++ (TWITH, inner) :: nl b0 ++ r_sarms inner arms.
+Proof. reflexivity. Qed.
+Lemma r_ifrest_IEnd : r_ifrest inner IEnd = [].
+Proof. reflexivity. Qed.
+Lemma r_sarms_SLast_var bc v b : r_sarms inner (SLast bc (Some v) b) =
+  (TBAR, bc) :: (TA v, inner) :: (TARROW, inner) :: r_body inner b.
+Proof. reflexivity. Qed.
+Lemma r_sarms_SLast_def bc b : r_sarms inner (SLast bc None b) =
+  (TBAR, bc) :: (TUS, inner) :: (TARROW, inner) :: r_body inner b.
+Proof. reflexivity. Qed.
+Lemma r_sarms_SCons bc lit b bl r : r_sarms inner (SCons bc lit b bl r) =
+  (TBAR, bc) :: (TSTR lit, inner) :: (TARROW, inner) :: r_body inner b ++ nl bl ++ r_sarms inner r.
 Proof. reflexivity. Qed.
 Lemma r_term_LIf c cd b1 t r : r_term inner c (LIf cd b1 t r) =
   (TIF, c) :: r_sx inner inner cd ++ (TTHEN, inner) :: nl b1 ++ r_block inner t ++ r_ifrest inner r.
@@ -277,14 +334,22 @@ Lemma er_atoms_ACons c a l : er_atoms (ACons c a l) = er_atom a :: er_atoms l.
 Proof. reflexivity. Qed.
 Lemma er_term_LApp a l : er_term (LApp a l) = EApp (er_atom a :: er_atoms l).
 Proof. reflexivity. Qed.
-Lemma er_term_LIf c b1 t r : er_term (LIf c b1 t r) = EIf (er_sx c) (er_block t) (Some (er_ifrest r)).
+Lemma er_term_LIf c b1 t r : er_term (LIf c b1 t r) = EIf (er_sx c) (er_block t) (er_ifrest r).
+Proof. reflexivity. Qed.
+Lemma er_term_LSMatch tg b0 arms : er_term (LSMatch tg b0 arms) = EMatch (er_sx tg) (er_sarms arms).
+Proof. reflexivity. Qed.
+Lemma er_sarms_SLast_var bc v b : er_sarms (SLast bc (Some v) b) = [Rule [TA v] (er_body b)].
+Proof. reflexivity. Qed.
+Lemma er_sarms_SLast_def bc b : er_sarms (SLast bc None b) = [Rule [TUS] (er_body b)].
+Proof. reflexivity. Qed.
+Lemma er_sarms_SCons bc lit b bl r : er_sarms (SCons bc lit b bl r) = Rule [TSTR lit] (er_body b) :: er_sarms r.
 Proof. reflexivity. Qed.
 Lemma er_term_LMatch tg b0 arms : er_term (LMatch tg b0 arms) = EMatch (er_sx tg) (er_arms arms).
 Proof. reflexivity. Qed.
-Lemma er_ifrest_IElse bl ec b : er_ifrest (IElse bl ec b) = er_body b.
+Lemma er_ifrest_IElse bl ec b : er_ifrest (IElse bl ec b) = Some (er_body b).
 Proof. reflexivity. Qed.
 Lemma er_ifrest_IElif bl ec c b1 t r : er_ifrest (IElif bl ec c b1 t r) =
-  Blk [SExpr (EIf (er_sx c) (er_block t) (Some (er_ifrest r)))].
+  Some (Blk [SExpr (EIf (er_sx c) (er_block t) (er_ifrest r))]).
 Proof. reflexivity. Qed.
 Lemma er_body_BInline b : er_body (BInline b) = er_block b.
 Proof. reflexivity. Qed.
@@ -320,15 +385,29 @@ Lemma wf_atoms_ACons off c a l : wf_atoms off (ACons c a l) = (wf_atom off a /\ 
 Proof. reflexivity. Qed.
 Lemma wf_term_LApp off a l : wf_term off (LApp a l) = (wf_atom off a /\ wf_atoms off l).
 Proof. reflexivity. Qed.
-Lemma wf_term_LIf off c b1 t r : wf_term off (LIf c b1 t r) = (wf_block off t /\ wf_ifrest off (bcol t) r).
+Lemma wf_term_LIf off c b1 t r : wf_term off (LIf c b1 t r) = (wf_block off t /\ wf_ifrest off t r).
+Proof. reflexivity. Qed.
+Lemma wf_term_LSMatch off tg b0 arms : wf_term off (LSMatch tg b0 arms) =
+  (match arms with SLast _ _ _ => False | SCons _ _ _ _ _ => True end /\ wf_sarms off None arms).
+Proof. reflexivity. Qed.
+Lemma wf_sarms_SLast off prev bc fin b : wf_sarms off prev (SLast bc fin b) =
+  (under prev bc /\ (fin = None -> off <= bc) /\ wf_body off b).
+Proof. reflexivity. Qed.
+Lemma wf_sarms_SCons off prev bc lit b bl r : wf_sarms off prev (SCons bc lit b bl r) =
+  (under prev bc /\ wf_body off b /\ wf_sarms off (Some (body_col b)) r).
+Proof. reflexivity. Qed.
+Lemma block_io_LB c s r : block_io (LB c s r) = rest_io (stmt_io s) r.
+Proof. reflexivity. Qed.
+Lemma rest_io_LCons d bl c s r : rest_io d (LCons bl c s r) = rest_io (stmt_io s) r.
 Proof. reflexivity. Qed.
 Lemma wf_term_LMatch off tg b0 arms : wf_term off (LMatch tg b0 arms) =
   (match arms with MLast _ p _ => not_default p | MCons _ p _ _ _ => not_default p end /\ wf_arms off None arms).
 Proof. reflexivity. Qed.
-Lemma wf_ifrest_IElse off prev bl ec b : wf_ifrest off prev (IElse bl ec b) = (ec < prev /\ wf_body off b).
+Lemma wf_ifrest_IElse off prev bl ec b : wf_ifrest off prev (IElse bl ec b) =
+  (ec < bcol prev /\ block_io prev = false /\ wf_body off b).
 Proof. reflexivity. Qed.
 Lemma wf_ifrest_IElif off prev bl ec c b1 t r : wf_ifrest off prev (IElif bl ec c b1 t r) =
-  (ec < prev /\ wf_block off t /\ wf_ifrest off (bcol t) r).
+  (ec < bcol prev /\ block_io prev = false /\ wf_block off t /\ wf_ifrest off t r).
 Proof. reflexivity. Qed.
 Lemma wf_body_BInline off b : wf_body off (BInline b) = wf_block off b.
 Proof. reflexivity. Qed.
@@ -370,18 +449,21 @@ Lemma stmt_head_facts t : stmt_head t -> t <> TEOL /\ t <> TRP /\ t <> TBAR /\ i
 Proof.
   intros [->|H]; [repeat split; auto; discriminate|]. destruct (expr_head_facts t H) as (? & ? & ? & ? & ?). auto.
 Qed.
+Lemma stmt_head_noelse t : stmt_head t -> t <> TELSE /\ t <> TELIF.
+Proof. intros [->|H]; [split; discriminate|]. destruct t; cbn in H; try contradiction; split; discriminate. Qed.
 
 Lemma r_atom_head c a k : exists t (r : list ptok), r_atom inner c a ++ k = @cons ptok (t, c) r /\ atom_head t.
 Proof. destruct a; cbn; eexists; eexists; split; try reflexivity; exact I. Qed.
 
 Lemma r_term_head c t k : exists t0 (r : list ptok), r_term inner c t ++ k = @cons ptok (t0, c) r /\ expr_head t0.
 Proof.
-  destruct t as [a l|cd t e|cd b1 t r|tg b0 arms].
+  destruct t as [a l|cd t e|cd b1 t r|tg b0 arms|tg b0 arms].
   - rewrite r_term_LApp, <- app_assoc. destruct (r_atom_head c a (r_atoms inner l ++ k)) as (t0 & r & E & H).
     exists t0, r. split; [exact E|]. apply atom_head_facts; exact H.
-  - rewrite r_term_LIf1. cbn [app]. eexists; eexists; split; [reflexivity|exact I].
+  - destruct e; [rewrite r_term_LIf1|rewrite r_term_LIf1_none]; cbn [app]; eexists; eexists; (split; [reflexivity|exact I]).
   - rewrite r_term_LIf. cbn [app]. eexists; eexists; split; [reflexivity|exact I].
   - rewrite r_term_LMatch. cbn [app]. eexists; eexists; split; [reflexivity|exact I].
+  - rewrite r_term_LSMatch. cbn [app]. eexists; eexists; split; [reflexivity|exact I].
 Qed.
 
 Lemma r_expr_head c e k : exists t0 (r : list ptok), r_expr inner c e ++ k = @cons ptok (t0, c) r /\ expr_head t0.
@@ -466,49 +548,60 @@ Lemma r_sx_head c s k : exists a r, r_sx inner c s ++ k = (TA a, c) :: r.
 Proof. destruct s as [[a l] rest]. unfold r_sx, r_sxt. cbn. eexists; eexists; reflexivity. Qed.
 
 (* ---------------------------------------------------------------- continuation contracts *)
+Definition nohd_else (k : list ptok) : Prop := match k with (TELSE, _) :: _ => False | _ => True end.
+Definition noelse (t : tok) : Prop := t <> TELSE /\ t <> TELIF.
+
 (** what may follow a block of column c: the line ends (or ')' / end of input), and the next token is no
-    operator and is ')' or strictly left of c *)
-Definition bfol (c : nat) (k : list ptok) : Prop :=
-  end_of_term k = true /\
-  match skip_eol k with [] => True | (t, c') :: _ => is_binop t = false /\ (t = TRP \/ c' < c) end.
+    operator, is ')' or strictly left of c, and is not else/elif when the block ends in an if without else *)
+Definition bfol (c : nat) (io : bool) (k : list ptok) : Prop :=
+  end_of_term k = true /\ nohd_else k /\
+  match skip_eol k with [] => True | (t, c') :: _ =>
+    is_binop t = false /\ (t = TRP \/ c' < c) /\ (io = true -> noelse t) end.
 
 (** what may follow an expression / statement inside a block of column off: additionally the next token
     is left of every block the construct leaves open (bd), and a '|' is left of off when the construct
-    ends with the arms of a match *)
-Definition efol (off : nat) (bd : option nat) (tm : bool) (k : list ptok) : Prop :=
-  end_of_term k = true /\
+    ends with the arms of a union match *)
+Definition efol (off : nat) (bd : option nat) (tm io : bool) (k : list ptok) : Prop :=
+  end_of_term k = true /\ nohd_else k /\
   match skip_eol k with [] => True | (t, c') :: _ =>
-    is_binop t = false /\ (forall b, bd = Some b -> t = TRP \/ c' < b) /\ (tm = true -> t = TBAR -> c' < off) end.
+    is_binop t = false /\ (forall b, bd = Some b -> t = TRP \/ c' < b) /\ (tm = true -> t = TBAR -> c' < off) /\
+    (io = true -> noelse t) end.
 
 Definition aft (bd : option nat) (k : list ptok) : list ptok :=
   match bd with None => k | Some _ => skip_eol k end.
 
 Definition tfol (off : nat) (t : lterm) (k : list ptok) : Prop :=
-  match t with LApp _ _ => end_of_term k = true | _ => efol off (term_bd t) (term_tm t) k end.
+  match t with LApp _ _ => end_of_term k = true | _ => efol off (term_bd t) (term_tm t) (term_io t) k end.
 
 Lemma skip_aft bd k : skip_eol (aft bd k) = skip_eol k.
 Proof. destruct bd; cbn [aft]; [apply skip_eol_idem|reflexivity]. Qed.
 
-Lemma efol_nobin off bd tm k : efol off bd tm k -> nobin (skip_eol k).
-Proof. intros [_ H]. destruct (skip_eol k) as [|[t c] r]; [exact I|]. apply H. Qed.
+Lemma efol_nobin off bd tm io k : efol off bd tm io k -> nobin (skip_eol k).
+Proof. intros (_ & _ & H). destruct (skip_eol k) as [|[t c] r]; [exact I|]. apply H. Qed.
 
-Lemma efol_bfol off b tm k : efol off (Some b) tm k -> bfol b k.
+Lemma efol_bfol off b tm io k : efol off (Some b) tm io k -> bfol b io k.
 Proof.
-  intros [E H]. split; [exact E|]. destruct (skip_eol k) as [|[t c] r]; [exact I|].
-  destruct H as (N & B & _). split; [exact N|]. apply B. reflexivity.
+  intros (E & NE & H). split; [exact E|]. split; [exact NE|]. destruct (skip_eol k) as [|[t c] r]; [exact I|].
+  destruct H as (N & B & _ & IO). split; [exact N|]. split; [apply B; reflexivity|exact IO].
 Qed.
 
-Lemma efol_tfol off t k : efol off (term_bd t) (term_tm t) k -> tfol off t k.
+Lemma efol_tfol off t k : efol off (term_bd t) (term_tm t) (term_io t) k -> tfol off t k.
 Proof. intros H. destruct t; cbn [tfol]; try exact H. apply H. Qed.
+
+Lemma nohd_else_nl b k : nohd_else (nl b ++ k).
+Proof. exact I. Qed.
 
 (* a block's column bounds what its statements leave open *)
 Lemma wf_body_col off b : wf_body off b -> off < body_col b.
 Proof. destruct b as [[c s r]|bl [c s r]]; cbn; intros (H & _); exact H. Qed.
-Lemma wf_ifrest_bd off prev r : wf_ifrest off prev r -> off < ifrest_bd r.
+Lemma wf_block_col off b : wf_block off b -> off < bcol b.
+Proof. destruct b as [c s r]. cbn. intros (H & _); exact H. Qed.
+Lemma wf_ifrest_bd off r : forall prev, off < bcol prev -> wf_ifrest off prev r -> off < ifrest_bd (bcol prev) r.
 Proof.
-  revert prev. induction r as [bl ec b|bl ec cd b1 t r IH]; intros prev; cbn [wf_ifrest ifrest_bd].
-  - intros (_ & H). apply wf_body_col; exact H.
-  - intros (_ & _ & H). eapply IH; exact H.
+  induction r as [|bl ec b|bl ec cd b1 t r IH]; intros prev L; cbn [wf_ifrest ifrest_bd].
+  - intros _. exact L.
+  - intros (_ & _ & H). apply wf_body_col; exact H.
+  - intros (_ & _ & Wt & H). apply IH; [apply wf_block_col; exact Wt|exact H].
 Qed.
 Lemma wf_arms_bd off prev a : wf_arms off prev a -> off < arms_bd a.
 Proof.
@@ -516,11 +609,18 @@ Proof.
   - intros (_ & _ & H). apply wf_body_col; exact H.
   - intros (_ & _ & _ & _ & H). eapply IH; exact H.
 Qed.
+Lemma wf_sarms_bd off prev a : wf_sarms off prev a -> off < sarms_bd a.
+Proof.
+  revert prev. induction a as [bc fin b|bc lit b bl r IH]; intros prev; cbn [wf_sarms sarms_bd].
+  - intros (_ & _ & H). apply wf_body_col; exact H.
+  - intros (_ & _ & H). eapply IH; exact H.
+Qed.
 Lemma wf_term_bd off t b : wf_term off t -> term_bd t = Some b -> off < b.
 Proof.
-  destruct t as [a l|cd t e|cd b1 t r|tg b0 arms]; cbn [wf_term term_bd]; try discriminate.
-  - intros (_ & H) E. inversion E; subst. eapply wf_ifrest_bd; exact H.
+  destruct t as [a l|cd t e|cd b1 t r|tg b0 arms|tg b0 arms]; cbn [wf_term term_bd]; try discriminate.
+  - intros (Wt & H) E. inversion E; subst. apply wf_ifrest_bd; [apply wf_block_col; exact Wt|exact H].
   - intros (_ & H) E. inversion E; subst. eapply wf_arms_bd; exact H.
+  - intros (_ & H) E. inversion E; subst. eapply wf_sarms_bd; exact H.
 Qed.
 Lemma wf_expr_bd off e b : wf_expr off e -> expr_bd e = Some b -> off < b.
 Proof.
@@ -537,10 +637,10 @@ Proof.
 Qed.
 
 (* the contract of the last statement of a block follows from the block's *)
-Lemma bfol_efol cb s k : wf_stmt cb s -> bfol cb k -> efol cb (stmt_bd s) (stmt_tm s) k.
+Lemma bfol_efol cb s k : wf_stmt cb s -> bfol cb (stmt_io s) k -> efol cb (stmt_bd s) (stmt_tm s) (stmt_io s) k.
 Proof.
-  intros W [E H]. split; [exact E|]. destruct (skip_eol k) as [|[t c'] r]; [exact I|].
-  destruct H as (N & C). split; [exact N|]. split.
+  intros W (E & NE & H). split; [exact E|]. split; [exact NE|]. destruct (skip_eol k) as [|[t c'] r]; [exact I|].
+  destruct H as (N & C & IO). split; [exact N|]. split; [|split; [|exact IO]].
   - intros b Hb. destruct C as [C|C]; [left; exact C|right]. pose proof (wf_stmt_bd cb s b W Hb). lia.
   - intros _ Ht. destruct C as [C|C]; [congruence|exact C].
 Qed.
@@ -560,27 +660,32 @@ Definition Pas (l : latoms) := forall off a c k, Pa a -> wf_atom off a -> wf_ato
 Definition Pt (t : lterm) := forall off c k, wf_term off t -> tfol off t k ->
   PT off (r_term inner c t ++ k) (er_term t) (aft (term_bd t) k).
 Definition Pif (r : lifrest) := forall off prev ts cond c1 c2 r2 tb k,
-  wf_ifrest off prev r -> efol off (Some (ifrest_bd r)) false k ->
+  wf_ifrest off prev r -> efol off (Some (ifrest_bd (bcol prev) r)) false (ifrest_io r) k ->
   PE off ts cond ((TTHEN, c1) :: (TEOL, c2) :: r2) ->
   PB off (skip_eol ((TEOL, c2) :: r2)) tb (skip_eol (r_ifrest inner r ++ k)) ->
-  PIF off ts (EIf cond tb (Some (er_ifrest r))) (skip_eol k).
-Definition Pbody (b : lbody) := forall off k, wf_body off b -> bfol (body_col b) k ->
+  PIF off ts (EIf cond tb (er_ifrest r)) (skip_eol k).
+Definition Pbody (b : lbody) := forall off k, wf_body off b -> bfol (body_col b) (body_io b) k ->
   PB off (skip_eol (r_body inner b ++ k)) (er_body b) (skip_eol k).
 Definition Pe (e : lexpr) :=
-  (forall off c k, wf_expr off e -> efol off (expr_bd e) (expr_tm e) k ->
+  (forall off c k, wf_expr off e -> efol off (expr_bd e) (expr_tm e) (expr_io e) k ->
      PE off (r_expr inner c e ++ k) (er_expr e) (aft (expr_bd e) k)) /\
-  (forall off cur o c0 c k ts, wf_expr off e -> efol off (expr_bd e) (expr_tm e) k ->
+  (forall off cur o c0 c k ts, wf_expr off e -> efol off (expr_bd e) (expr_tm e) (expr_io e) k ->
      skip_eol ts = (TOP o, c0) :: r_expr inner c e ++ k ->
      PBA off cur ts (er_cont cur o e) (aft (expr_bd e) k)).
-Definition Ps (s : lstmt) := forall off c k, wf_stmt off s -> efol off (stmt_bd s) (stmt_tm s) k ->
+Definition Ps (s : lstmt) := forall off c k, wf_stmt off s -> efol off (stmt_bd s) (stmt_tm s) (stmt_io s) k ->
   PS off (r_stmt inner c s ++ k) (er_stmt s) (aft (stmt_bd s) k).
-Definition Pb (b : lblock) := forall off k, wf_block off b -> bfol (bcol b) k ->
+Definition Pb (b : lblock) := forall off k, wf_block off b -> bfol (bcol b) (block_io b) k ->
   PB off (r_block inner b ++ k) (er_block b) (skip_eol k).
-Definition Pr (r : lrest) := forall cb c s k, Ps s -> wf_stmt cb s -> wf_rest cb s r -> bfol cb k ->
+Definition Pr (r : lrest) := forall cb c s k, Ps s -> wf_stmt cb s -> wf_rest cb s r -> bfol cb (rest_io (stmt_io s) r) k ->
   PSS cb (r_stmt inner c s ++ r_rest inner r ++ k) (er_stmt s :: er_rest r) (skip_eol k).
-Definition Parms (a : larms) := forall off prev k, wf_arms off prev a -> efol off (Some (arms_bd a)) true k ->
+Definition Parms (a : larms) := forall off prev k, wf_arms off prev a -> efol off (Some (arms_bd a)) true (arms_io a) k ->
   PUR off (r_arms inner a ++ k) (er_arms a) (skip_eol k) /\
   (forall bc p b, a = MLast bc p b -> PRL off (r_arms inner a ++ k) (Rule (er_pat p) (er_body b)) (skip_eol k)).
+Definition Psarms (a : lsarms) := forall off prev k, wf_sarms off prev a -> efol off (Some (sarms_bd a)) false (sarms_io a) k ->
+  match a with
+  | SCons _ _ _ _ _ => PSR off (r_sarms inner a ++ k) (er_sarms a) (skip_eol k)
+  | SLast _ _ _ => exists x, er_sarms a = [x] /\ PRL off (r_sarms inner a ++ k) x (skip_eol k)
+  end.
 
 Scheme latom_m := Induction for latom Sort Prop
   with latoms_m := Induction for latoms Sort Prop
@@ -591,8 +696,9 @@ Scheme latom_m := Induction for latom Sort Prop
   with lstmt_m := Induction for lstmt Sort Prop
   with lblock_m := Induction for lblock Sort Prop
   with lrest_m := Induction for lrest Sort Prop
-  with larms_m := Induction for larms Sort Prop.
-Combined Scheme l_mutind from latom_m, latoms_m, lterm_m, lifrest_m, lbody_m, lexpr_m, lstmt_m, lblock_m, lrest_m, larms_m.
+  with larms_m := Induction for larms Sort Prop
+  with lsarms_m := Induction for lsarms Sort Prop.
+Combined Scheme l_mutind from latom_m, latoms_m, lterm_m, lifrest_m, lbody_m, lexpr_m, lstmt_m, lblock_m, lrest_m, larms_m, lsarms_m.
 
 Lemma span_pat p c r :
   span_until is_arrow (r_pat inner p ++ (TARROW, c) :: r) = (er_pat p, (TARROW, c) :: r).
@@ -609,9 +715,30 @@ Proof.
   cbn [app]; rewrite <- app_assoc; reflexivity.
 Qed.
 
+(* the contract of a then-block followed by the rest of the if *)
+Lemma then_block_fol off t r k :
+  wf_ifrest off t r -> efol off (Some (ifrest_bd (bcol t) r)) false (ifrest_io r) k ->
+  bfol (bcol t) (block_io t) (r_ifrest inner r ++ k).
+Proof.
+  intros Wr F. destruct r as [|bl ec b|bl ec cd' b1' t' r'].
+  - rewrite r_ifrest_IEnd. cbn [app]. cbn [ifrest_bd ifrest_io] in F.
+    destruct F as (E & NE & F). split; [exact E|]. split; [exact NE|].
+    destruct (skip_eol k) as [|[t0 c0] r0]; [exact I|]. destruct F as (N & B & _ & IO).
+    split; [exact N|]. split; [apply B; reflexivity|]. intros _. apply IO. reflexivity.
+  - rewrite wf_ifrest_IElse in Wr. destruct Wr as (L & IOt & _).
+    split; [reflexivity|]. split; [rewrite r_ifrest_IElse; exact I|].
+    rewrite r_ifrest_IElse, <- app_assoc, skip_nl. cbn [app skip_eol].
+    split; [reflexivity|]. split; [right; exact L|]. rewrite IOt. discriminate.
+  - rewrite wf_ifrest_IElif in Wr. destruct Wr as (L & IOt & _).
+    split; [reflexivity|]. split; [rewrite r_ifrest_IElif; exact I|].
+    rewrite r_ifrest_IElif, <- app_assoc, skip_nl. cbn [app skip_eol].
+    split; [reflexivity|]. split; [right; exact L|]. rewrite IOt. discriminate.
+Qed.
+
 Theorem inversion :
   (forall a, Pa a) /\ (forall l, Pas l) /\ (forall t, Pt t) /\ (forall r, Pif r) /\ (forall b, Pbody b) /\
-  (forall e, Pe e) /\ (forall s, Ps s) /\ (forall b, Pb b) /\ (forall r, Pr r) /\ (forall a, Parms a).
+  (forall e, Pe e) /\ (forall s, Ps s) /\ (forall b, Pb b) /\ (forall r, Pr r) /\ (forall a, Parms a) /\
+  (forall a, Psarms a).
 Proof.
   apply l_mutind.
   - (* LA *) intros a off c k _. apply PA_ta.
@@ -619,15 +746,16 @@ Proof.
   - (* LLam *)
     intros ps b IHb cl off c k W. rewrite wf_atom_LLam in W. rewrite r_atom_LLam, er_atom_LLam. norm_app.
     set (K := r_close inner cl ++ k).
-    assert (SK : exists c2, skip_eol K = (TRP, c2) :: k /\ end_of_term K = true).
+    assert (SK : exists c2, skip_eol K = (TRP, c2) :: k /\ end_of_term K = true /\ nohd_else K).
     { unfold K. destruct cl as [[bl c2]|]; cbn [r_close].
-      - exists c2. rewrite <- app_assoc. rewrite skip_nl. split; reflexivity.
-      - exists inner. split; reflexivity. }
-    destruct SK as (c2 & SK & EK).
+      - exists c2. rewrite <- app_assoc. rewrite skip_nl. repeat split.
+      - exists inner. repeat split. }
+    destruct SK as (c2 & SK & EK & NK).
     apply PA_par with (c2 := c2); [discriminate|].
     eapply PE_intro.
     + eapply PT_fun; [apply span_atoks; [reflexivity|reflexivity]|].
-      fold K. apply IHb; [exact W|]. split; [exact EK|]. rewrite SK. split; [reflexivity|left; reflexivity].
+      fold K. apply IHb; [exact W|]. split; [exact EK|]. split; [exact NK|]. rewrite SK.
+      split; [reflexivity|]. split; [left; reflexivity|]. intros _. split; discriminate.
     + rewrite SK. apply PBA_stop. cbn. reflexivity.
   - (* ANil *) intros off a c k PAa Wa _ E. cbn [r_atoms er_atoms app]. apply PAS_one; [apply PAa; exact Wa|exact E].
   - (* ACons *)
@@ -643,29 +771,32 @@ Proof.
     destruct (r_atom_head c a (r_atoms inner l ++ k)) as (t0 & r & E0 & H0).
     pose proof (IHl off a c k IHa Wa Wl F) as P. rewrite E0 in *. apply PT_atoms; [exact H0|exact P].
   - (* LIf1 *)
-    intros cd t e off c k _ F. cbn [tfol term_bd term_tm] in F. destruct F as (E & F).
-    rewrite r_term_LIf1. cbn [er_term term_bd aft]. norm_app. apply PT_if.
-    destruct (r_sx_head inner t ((TELSE, inner) :: r_sx inner inner e ++ k)) as (a2 & r2 & E2).
-    eapply PIF_one with (t2 := TA a2) (c2 := inner) (r2 := r2) (c3 := inner).
-    + rewrite <- E2. apply PE_sx; [reflexivity|cbn; reflexivity].
-    + discriminate.
-    + rewrite <- E2. apply PE_sx; [reflexivity|cbn; reflexivity].
-    + apply PE_sx; [exact E|]. destruct (skip_eol k) as [|[t0 c0] r0]; [exact I|]. apply F.
+    intros cd t e off c k _ F. cbn [tfol term_bd term_tm term_io] in F. destruct F as (E & NE & F).
+    assert (NB : nobin (skip_eol k)).
+    { destruct (skip_eol k) as [|[t0 c0] r0]; [exact I|]. apply F. }
+    destruct e as [e|].
+    + rewrite r_term_LIf1. cbn [er_term term_bd aft]. norm_app. apply PT_if.
+      destruct (r_sx_head inner t ((TELSE, inner) :: r_sx inner inner e ++ k)) as (a2 & r2 & E2).
+      eapply PIF_one with (t2 := TA a2) (c2 := inner) (r2 := r2) (c3 := inner).
+      * rewrite <- E2. apply PE_sx; [reflexivity|cbn; reflexivity].
+      * discriminate.
+      * rewrite <- E2. apply PE_sx; [reflexivity|cbn; reflexivity].
+      * apply PE_sx; [exact E|exact NB].
+    + rewrite r_term_LIf1_none. cbn [er_term term_bd aft]. norm_app. apply PT_if.
+      destruct (r_sx_head inner t k) as (a2 & r2 & E2).
+      eapply PIF_one_none with (t2 := TA a2) (c2 := inner) (r2 := r2).
+      * rewrite <- E2. apply PE_sx; [reflexivity|cbn; reflexivity].
+      * discriminate.
+      * rewrite <- E2. apply PE_sx; [exact E|exact NB].
+      * destruct k as [|[t0 c0] r0]; [exact I|]. destruct t0; try exact I. exact NE.
   - (* LIf *)
-    intros cd b1 t IHt r IHr off c k W F. rewrite wf_term_LIf in W. destruct W as (Wt & Wr). cbn [tfol term_bd term_tm] in F.
+    intros cd b1 t IHt r IHr off c k W F. rewrite wf_term_LIf in W. destruct W as (Wt & Wr). cbn [tfol term_bd term_tm term_io] in F.
     rewrite r_term_LIf, er_term_LIf. cbn [term_bd aft]. norm_app. apply PT_if.
     eapply IHr with (c1 := inner) (c2 := inner) (r2 := eols b1 ++ r_block inner t ++ r_ifrest inner r ++ k); [exact Wr|exact F| |].
     + apply PE_sx; [reflexivity|cbn; reflexivity].
-    + cbn [skip_eol]. rewrite skip_eols, skip_block. apply IHt; [exact Wt|].
-      split.
-      * destruct r; [rewrite r_ifrest_IElse|rewrite r_ifrest_IElif]; reflexivity.
-      * destruct r as [bl ec b|bl ec cd' b1' t' r'].
-        -- rewrite r_ifrest_IElse, <- app_assoc, skip_nl. cbn [app skip_eol].
-           rewrite wf_ifrest_IElse in Wr. split; [reflexivity|right; apply Wr].
-        -- rewrite r_ifrest_IElif, <- app_assoc, skip_nl. cbn [app skip_eol].
-           rewrite wf_ifrest_IElif in Wr. split; [reflexivity|right; apply Wr].
+    + cbn [skip_eol]. rewrite skip_eols, skip_block. apply IHt; [exact Wt|]. apply (then_block_fol off t r k Wr F).
   - (* LMatch *)
-    intros tg b0 arms IHa off c k W F. rewrite wf_term_LMatch in W. destruct W as (Wd & Wa). cbn [tfol term_bd term_tm] in F.
+    intros tg b0 arms IHa off c k W F. rewrite wf_term_LMatch in W. destruct W as (Wd & Wa). cbn [tfol term_bd term_tm term_io] in F.
     rewrite r_term_LMatch, er_term_LMatch. cbn [term_bd aft]. norm_app.
     eapply PT_match with (c1 := inner).
     + apply PE_sx; [reflexivity|cbn; reflexivity].
@@ -676,9 +807,24 @@ Proof.
       rewrite Es. rewrite (skip_eol_nonEOL TBAR bc _ ltac:(discriminate)).
       apply PRS_union; [exact D1|exact D2|]. rewrite <- Es.
       apply (IHa off None k Wa F).
+  - (* LSMatch *)
+    intros tg b0 arms IHa off c k W F. rewrite wf_term_LSMatch in W. destruct W as (Wd & Wa). cbn [tfol term_bd term_tm term_io] in F.
+    rewrite r_term_LSMatch, er_term_LSMatch. cbn [term_bd aft]. norm_app.
+    eapply PT_match with (c1 := inner).
+    + apply PE_sx; [reflexivity|cbn; reflexivity].
+    + rewrite skip_nl. pose proof (IHa off None k Wa F) as P.
+      destruct arms as [bc fin b|bc lit b bl r]; [contradiction|].
+      rewrite r_sarms_SCons in *. cbn [app] in *.
+      rewrite (skip_eol_nonEOL TBAR bc _ ltac:(discriminate)).
+      apply PRS_string; [reflexivity|reflexivity|exact P].
+  - (* IEnd *)
+    intros off prev ts cond c1 c2 r2 tb k _ F PEc PBt. rewrite r_ifrest_IEnd in PBt. cbn [app] in PBt. cbn [er_ifrest].
+    eapply PIF_none; [exact PEc|exact PBt|]. rewrite skip_eol_idem.
+    cbn [ifrest_io] in F. destruct F as (_ & _ & F). destruct (skip_eol k) as [|[t0 c0] r0]; [exact I|].
+    destruct F as (_ & _ & _ & IO). destruct (IO eq_refl) as (N1 & N2). destruct t0; try exact I; congruence.
   - (* IElse *)
     intros bl ec b IHb off prev ts cond c1 c2 r2 tb k W F PEc PBt.
-    rewrite wf_ifrest_IElse in W. destruct W as (_ & Wb). cbn [ifrest_bd] in F. rewrite er_ifrest_IElse.
+    rewrite wf_ifrest_IElse in W. destruct W as (_ & _ & Wb). cbn [ifrest_bd ifrest_io] in F. rewrite er_ifrest_IElse.
     rewrite r_ifrest_IElse, <- app_assoc, skip_nl in PBt. cbn [app] in PBt.
     rewrite (skip_eol_nonEOL TELSE ec _ ltac:(discriminate)) in PBt.
     eapply PIF_else; [exact PEc|exact PBt| |].
@@ -686,7 +832,7 @@ Proof.
     + apply IHb; [exact Wb|]. eapply efol_bfol; exact F.
   - (* IElif *)
     intros bl ec cd b1 t IHt r IHr off prev ts cond c1 c2 r2 tb k W F PEc PBt.
-    rewrite wf_ifrest_IElif in W. destruct W as (_ & Wt & Wr). cbn [ifrest_bd] in F. rewrite er_ifrest_IElif.
+    rewrite wf_ifrest_IElif in W. destruct W as (_ & _ & Wt & Wr). cbn [ifrest_bd ifrest_io] in F. rewrite er_ifrest_IElif.
     rewrite r_ifrest_IElif, <- app_assoc, skip_nl in PBt. cbn [app] in PBt.
     rewrite (skip_eol_nonEOL TELIF ec _ ltac:(discriminate)) in PBt.
     eapply PIF_elif; [exact PEc|exact PBt| |].
@@ -694,14 +840,7 @@ Proof.
     + norm_app.
       eapply IHr with (c1 := inner) (c2 := inner) (r2 := eols b1 ++ r_block inner t ++ r_ifrest inner r ++ k); [exact Wr|exact F| |].
       * apply PE_sx; [reflexivity|cbn; reflexivity].
-      * cbn [skip_eol]. rewrite skip_eols, skip_block. apply IHt; [exact Wt|].
-        split.
-        -- destruct r; [rewrite r_ifrest_IElse|rewrite r_ifrest_IElif]; reflexivity.
-        -- destruct r as [bl' ec' b'|bl' ec' cd' b1' t' r'].
-           ++ rewrite r_ifrest_IElse, <- app_assoc, skip_nl. cbn [app skip_eol].
-              rewrite wf_ifrest_IElse in Wr. split; [reflexivity|right; apply Wr].
-           ++ rewrite r_ifrest_IElif, <- app_assoc, skip_nl. cbn [app skip_eol].
-              rewrite wf_ifrest_IElif in Wr. split; [reflexivity|right; apply Wr].
+      * cbn [skip_eol]. rewrite skip_eols, skip_block. apply IHt; [exact Wt|]. apply (then_block_fol off t r k Wr F).
   - (* BInline *)
     intros b IHb off k W F. rewrite wf_body_BInline in W. rewrite r_body_BInline, er_body_BInline, skip_block.
     apply IHb; assumption.
@@ -710,10 +849,10 @@ Proof.
     apply IHb; assumption.
   - (* LT *)
     intros t IHt. split.
-    + intros off c k W F. rewrite wf_expr_LT in W. cbn [expr_bd expr_tm] in F. rewrite r_expr_LT, er_expr_LT. cbn [expr_bd].
+    + intros off c k W F. rewrite wf_expr_LT in W. cbn [expr_bd expr_tm expr_io] in F. rewrite r_expr_LT, er_expr_LT. cbn [expr_bd].
       eapply PE_intro; [apply IHt; [exact W|apply efol_tfol; exact F]|].
       apply PBA_stop. rewrite skip_aft. eapply efol_nobin; exact F.
-    + intros off cur o c0 c k ts W F E. rewrite wf_expr_LT in W. cbn [expr_bd expr_tm] in F. rewrite r_expr_LT in E.
+    + intros off cur o c0 c k ts W F E. rewrite wf_expr_LT in W. cbn [expr_bd expr_tm expr_io] in F. rewrite r_expr_LT in E.
       rewrite er_cont_LT. cbn [expr_bd].
       eapply PBA_op; [exact E|reflexivity|apply IHt; [exact W|apply efol_tfol; exact F]|].
       apply PBA_stop. rewrite skip_aft. eapply efol_nobin; exact F.
@@ -725,14 +864,14 @@ Proof.
       - exists c0. rewrite <- app_assoc, skip_nl. split; reflexivity.
       - exists inner. split; reflexivity. }
     split.
-    + intros off c k W F. rewrite wf_expr_LOp in W. destruct W as (Wa & Wl & We). cbn [expr_bd expr_tm] in F.
+    + intros off c k W F. rewrite wf_expr_LOp in W. destruct W as (Wa & Wl & We). cbn [expr_bd expr_tm expr_io] in F.
       rewrite r_expr_LOp, er_expr_LOp. cbn [expr_bd]. norm_app.
       destruct (KS k) as (c0 & SK & EK).
       destruct (r_atom_head c a (r_atoms inner l ++ r_brk inner brk o' ++ r_expr inner inner e' ++ k)) as (t0 & r & E0 & H0).
       pose proof (IHl off a c _ IHa Wa Wl EK) as P. rewrite E0 in *.
       eapply PE_intro; [apply PT_atoms; [exact H0|exact P]|].
       eapply IHe2; [exact We|exact F|exact SK].
-    + intros off cur o c0 c k ts W F E. rewrite wf_expr_LOp in W. destruct W as (Wa & Wl & We). cbn [expr_bd expr_tm] in F.
+    + intros off cur o c0 c k ts W F E. rewrite wf_expr_LOp in W. destruct W as (Wa & Wl & We). cbn [expr_bd expr_tm expr_io] in F.
       rewrite r_expr_LOp in E. rewrite er_cont_LOp. cbn [expr_bd]. revert E. norm_app. intros E.
       destruct (KS k) as (c1 & SK & EK).
       destruct (r_atom_head c a (r_atoms inner l ++ r_brk inner brk o' ++ r_expr inner inner e' ++ k)) as (t0 & r & E0 & H0).
@@ -740,67 +879,69 @@ Proof.
       eapply PBA_op; [exact E|reflexivity|apply PT_atoms; [exact H0|exact P]|].
       eapply IHe2; [exact We|exact F|exact SK].
   - (* LLet *)
-    intros x nl0 e (IHe & _) off c k W F. rewrite wf_stmt_LLet in W. cbn [stmt_bd stmt_tm] in F. rewrite er_stmt_LLet. cbn [stmt_bd].
+    intros x nl0 e (IHe & _) off c k W F. rewrite wf_stmt_LLet in W. cbn [stmt_bd stmt_tm stmt_io] in F. rewrite er_stmt_LLet. cbn [stmt_bd].
     destruct nl0 as [[bl c']|].
     + rewrite r_stmt_LLet_next. norm_app. eapply PS_let with (c1 := inner); [reflexivity|].
       rewrite skip_nl, skip_expr. apply IHe; assumption.
     + rewrite r_stmt_LLet_same. norm_app. eapply PS_let with (c1 := inner); [reflexivity|].
       rewrite skip_expr. apply IHe; assumption.
   - (* LLetFn *)
-    intros f p ps b IHb off c k W F. rewrite wf_stmt_LLetFn in W. cbn [stmt_bd stmt_tm] in F.
+    intros f p ps b IHb off c k W F. rewrite wf_stmt_LLetFn in W. cbn [stmt_bd stmt_tm stmt_io] in F.
     rewrite r_stmt_LLetFn, er_stmt_LLetFn. cbn [stmt_bd aft]. norm_app.
     eapply PS_letfn with (c1 := inner) (hdr := TA f :: TA p :: map TA ps).
     + cbn [span_until is_eq orb]. rewrite (span_atoks is_eq ps TEQ inner _ ltac:(reflexivity) ltac:(reflexivity)). reflexivity.
     + reflexivity.
     + apply IHb; [exact W|]. eapply efol_bfol; exact F.
   - (* LExpr *)
-    intros e (IHe & _) off c k W F. rewrite wf_stmt_LExpr in W. cbn [stmt_bd stmt_tm] in F.
+    intros e (IHe & _) off c k W F. rewrite wf_stmt_LExpr in W. cbn [stmt_bd stmt_tm stmt_io] in F.
     rewrite r_stmt_LExpr, er_stmt_LExpr. cbn [stmt_bd].
     destruct (r_expr_head c e k) as (t0 & r & E0 & H0). pose proof (IHe off c k W F) as P. rewrite E0 in *.
     apply PS_expr; [exact H0|exact P].
   - (* LB *)
-    intros c s IHs r IHr off k W F. rewrite wf_block_LB in W. destruct W as (L & Ws & Wr). cbn [bcol] in F.
+    intros c s IHs r IHr off k W F. rewrite wf_block_LB in W. destruct W as (L & Ws & Wr). cbn [bcol] in F. rewrite block_io_LB in F.
     rewrite r_block_LB, er_block_LB, <- app_assoc.
     destruct (r_stmt_head c s (r_rest inner r ++ k)) as (t0 & r0 & E0 & H0).
     pose proof (IHr c c s k IHs Ws Wr F) as P. rewrite E0 in *.
     apply PB_intro; [exact L|exact P|]. eapply wf_rest_last; exact Wr.
   - (* LNil *)
-    intros cb c s k PSs Ws _ F. cbn [r_rest er_rest app].
+    intros cb c s k PSs Ws _ F. cbn [r_rest er_rest app rest_io] in *.
     pose proof (PSs cb c k Ws (bfol_efol cb s k Ws F)) as P1.
     rewrite <- (skip_aft (stmt_bd s) k).
     apply PSS_one; [exact P1|]. rewrite skip_aft.
-    destruct F as (_ & F). destruct (skip_eol k) as [|[t c'] r]; [reflexivity|]. destruct F as (_ & [->|F]); cbn [end_of_block].
+    destruct F as (_ & _ & F). destruct (skip_eol k) as [|[t c'] r]; [reflexivity|]. destruct F as (_ & [->|F] & _); cbn [end_of_block].
     + apply orb_true_r.
     + apply orb_true_iff. left. apply Nat.ltb_lt. exact F.
   - (* LCons *)
     intros bl c' s' IHs' r' IHr' cb c s k PSs Ws W F. rewrite wf_rest_LCons in W. destruct W as (Lc & Un & Ws' & Wr').
+    rewrite rest_io_LCons in F.
     rewrite r_rest_LCons, er_rest_LCons. norm_app.
     set (tail := r_stmt inner c' s' ++ r_rest inner r' ++ k).
     destruct (r_stmt_head c' s' (r_rest inner r' ++ k)) as (t0 & r0 & E0 & H0). fold tail in E0.
     destruct (stmt_head_facts t0 H0) as (N1 & N2 & N3 & N4).
     assert (Sk : skip_eol (nl bl ++ tail) = @cons ptok (t0, c') r0).
     { rewrite skip_nl, E0. apply skip_eol_nonEOL. exact N1. }
-    assert (O : efol cb (stmt_bd s) (stmt_tm s) (nl bl ++ tail)).
-    { split; [reflexivity|]. rewrite Sk. split; [exact N4|]. split.
+    assert (O : efol cb (stmt_bd s) (stmt_tm s) (stmt_io s) (nl bl ++ tail)).
+    { split; [reflexivity|]. split; [exact I|]. rewrite Sk. split; [exact N4|]. split; [|split].
       - intros b Hb. right. rewrite Hb in Un. exact Un.
-      - intros _ Ht. congruence. }
+      - intros _ Ht. congruence.
+      - intros _. apply stmt_head_noelse. exact H0. }
     pose proof (PSs cb c _ Ws O) as P1.
     eapply PSS_cons; [exact P1| |].
     + rewrite skip_aft, Sk. cbn [end_of_block]. apply orb_false_iff. split; [apply Nat.ltb_ge; exact Lc|].
       destruct t0; try reflexivity. congruence.
     + rewrite skip_aft, Sk, <- E0. unfold tail. apply IHr'; assumption.
   - (* MLast *)
-    intros bc p b IHb off prev k W F. rewrite wf_arms_MLast in W. destruct W as (Lb & _ & Wb). cbn [arms_bd] in F.
+    intros bc p b IHb off prev k W F. rewrite wf_arms_MLast in W. destruct W as (Lb & _ & Wb). cbn [arms_bd arms_io] in F.
     rewrite r_arms_MLast, er_arms_MLast.
     assert (R : PRL off ((TBAR, bc) :: r_pat inner p ++ (TARROW, inner) :: r_body inner b ++ k) (Rule (er_pat p) (er_body b)) (skip_eol k)).
     { eapply PRL_intro; [apply span_pat|]. apply IHb; [exact Wb|]. eapply efol_bfol; exact F. }
     cbn [app]. rewrite <- app_assoc. cbn [app]. split.
     + apply PUR_last; [exact R|].
-      destruct F as (_ & F). destruct (skip_eol k) as [|[t c'] r]; [reflexivity|]. destruct F as (_ & _ & F).
+      destruct F as (_ & _ & F). destruct (skip_eol k) as [|[t c'] r]; [reflexivity|]. destruct F as (_ & _ & F & _).
       destruct t; try reflexivity. cbn [bar_inside]. apply Nat.leb_gt. apply F; reflexivity.
     + intros bc0 p0 b0 E. inversion E; subst. exact R.
   - (* MCons *)
-    intros bc p b IHb bl r IHr off prev k W F. rewrite wf_arms_MCons in W. destruct W as (Lb & _ & ND & Wb & Wr). cbn [arms_bd] in F.
+    intros bc p b IHb bl r IHr off prev k W F. rewrite wf_arms_MCons in W. destruct W as (Lb & _ & ND & Wb & Wr). cbn [arms_bd arms_io] in F.
     rewrite r_arms_MCons, er_arms_MCons. split; [|intros; discriminate].
     cbn [app]. rewrite <- !app_assoc. cbn [app]. rewrite <- !app_assoc.
     set (K := nl bl ++ r_arms inner r ++ k).
@@ -812,8 +953,8 @@ Proof.
       - rewrite wf_arms_MLast in Wr. destruct Wr as (? & U & _). cbn in U. auto.
       - rewrite wf_arms_MCons in Wr. destruct Wr as (? & U & _). cbn in U. auto. }
     assert (R : PRL off ((TBAR, bc) :: r_pat inner p ++ (TARROW, inner) :: r_body inner b ++ K) (Rule (er_pat p) (er_body b)) (skip_eol K)).
-    { eapply PRL_intro; [apply span_pat|]. apply IHb; [exact Wb|]. split; [reflexivity|]. rewrite SK.
-      split; [reflexivity|right; apply WB]. }
+    { eapply PRL_intro; [apply span_pat|]. apply IHb; [exact Wb|]. split; [reflexivity|]. split; [exact I|]. rewrite SK.
+      split; [reflexivity|]. split; [right; apply WB|]. intros _. split; discriminate. }
     assert (BI : bar_inside off (skip_eol K) = true).
     { rewrite SK. cbn [bar_inside]. apply Nat.leb_le. apply WB. }
     destruct (IHr off (Some (body_col b)) k Wr F) as (PU & PL).
@@ -829,27 +970,72 @@ Proof.
         -- rewrite SK. reflexivity.
         -- rewrite SK, <- Es. eapply PL. reflexivity.
       * rewrite wf_arms_MCons in Wr. destruct Wr as (_ & _ & ND2 & _). contradiction.
+  - (* SLast *)
+    intros bc fin b IHb off prev k W F. rewrite wf_sarms_SLast in W. destruct W as (_ & _ & Wb). cbn [sarms_bd sarms_io] in F.
+    pose proof (IHb off k Wb (efol_bfol _ _ _ _ _ F)) as PBb.
+    destruct fin as [v|].
+    + exists (Rule [TA v] (er_body b)). split; [reflexivity|]. rewrite r_sarms_SLast_var. cbn [app].
+      eapply PRL_intro with (c1 := inner); [reflexivity|exact PBb].
+    + exists (Rule [TUS] (er_body b)). split; [reflexivity|]. rewrite r_sarms_SLast_def. cbn [app].
+      eapply PRL_intro with (c1 := inner); [reflexivity|exact PBb].
+  - (* SCons *)
+    intros bc lit b IHb bl r IHr off prev k W F. rewrite wf_sarms_SCons in W. destruct W as (_ & Wb & Wr). cbn [sarms_bd sarms_io] in F.
+    rewrite r_sarms_SCons, er_sarms_SCons. cbn [app]. rewrite <- !app_assoc.
+    set (K := nl bl ++ r_sarms inner r ++ k).
+    pose proof (IHr off (Some (body_col b)) k Wr F) as PR.
+    destruct r as [bc' fin b'|bc' lit' b' bl' r'].
+    + (* the closing rule follows *)
+      rewrite wf_sarms_SLast in Wr. destruct Wr as (U & IN & _). cbn [under] in U.
+      destruct PR as (x & Ex & PLx). rewrite Ex.
+      assert (SK : exists t2, skip_eol K = (TBAR, bc') :: (t2, inner) :: (TARROW, inner) :: r_body inner b' ++ k /\
+                  (t2 = TUS <-> fin = None) /\ (forall a, t2 <> TSTR a) /\ r_sarms inner (SLast bc' fin b') ++ k = skip_eol K).
+      { unfold K. rewrite skip_nl. destruct fin as [v|].
+        - exists (TA v). rewrite r_sarms_SLast_var. cbn [app]. rewrite (skip_eol_nonEOL TBAR bc' _ ltac:(discriminate)).
+          repeat split; try discriminate; intros; discriminate.
+        - exists TUS. rewrite r_sarms_SLast_def. cbn [app]. rewrite (skip_eol_nonEOL TBAR bc' _ ltac:(discriminate)).
+          repeat split; try discriminate; intros; discriminate. }
+      destruct SK as (t2 & SK & TU & TS & ER).
+      assert (R : PRL off ((TBAR, bc) :: (TSTR lit, inner) :: (TARROW, inner) :: r_body inner b ++ K) (Rule [TSTR lit] (er_body b)) (skip_eol K)).
+      { eapply PRL_intro with (c1 := inner); [reflexivity|]. apply IHb; [exact Wb|]. split; [reflexivity|]. split; [exact I|]. rewrite SK.
+        split; [reflexivity|]. split; [right; exact U|]. intros _. split; discriminate. }
+      eapply PSR_last; [exact R| | |].
+      * rewrite SK. destruct t2; try reflexivity. exfalso. eapply TS; reflexivity.
+      * rewrite SK. cbn [is_default_mr bar_inside].
+        destruct t2; try reflexivity. cbn [andb]. rewrite (proj2 (Nat.leb_le off bc') (IN (proj1 TU eq_refl))). reflexivity.
+      * rewrite <- ER. exact PLx.
+    + (* another literal rule *)
+      rewrite wf_sarms_SCons in Wr. destruct Wr as (U & _). cbn [under] in U.
+      assert (SK : skip_eol K = r_sarms inner (SCons bc' lit' b' bl' r') ++ k).
+      { unfold K. rewrite skip_nl, r_sarms_SCons. cbn [app]. apply skip_eol_nonEOL. discriminate. }
+      assert (R : PRL off ((TBAR, bc) :: (TSTR lit, inner) :: (TARROW, inner) :: r_body inner b ++ K) (Rule [TSTR lit] (er_body b)) (skip_eol K)).
+      { eapply PRL_intro with (c1 := inner); [reflexivity|]. apply IHb; [exact Wb|]. split; [reflexivity|]. split; [exact I|]. rewrite SK, r_sarms_SCons. cbn [app].
+        split; [reflexivity|]. split; [right; exact U|]. intros _. split; discriminate. }
+      eapply PSR_more; [exact R| |].
+      * rewrite SK, r_sarms_SCons. reflexivity.
+      * rewrite SK. exact PR.
 Qed.
 
 (* ---------------------------------------------------------------- corollaries *)
-Lemma bfol_nil c : bfol c [].
-Proof. split; [reflexivity|exact I]. Qed.
+Lemma bfol_nil c io : bfol c io [].
+Proof. split; [reflexivity|]. split; exact I. Qed.
 
 Corollary block_inversion b off : wf_block off b ->
   exists n0, forall n, n0 <= n -> p_block n off (r_block inner b) = Ok (er_block b, []).
 Proof.
   intros W. destruct inversion as (_ & _ & _ & _ & _ & _ & _ & HB & _).
-  pose proof (HB b off [] W (bfol_nil _)) as P. rewrite app_nil_r in P. exact P.
+  pose proof (HB b off [] W (bfol_nil _ _)) as P. rewrite app_nil_r in P. exact P.
 Qed.
 
 (** a line whose first token is strictly left of the block ends the block there: the token is left
-    for the enclosing construct *)
+    for the enclosing construct (if the block ends in an if without else, that token is not else/elif) *)
 Corollary dedent_ends_block_k b off k t c' r :
-  wf_block off b -> end_of_term k = true -> skip_eol k = (t, c') :: r -> is_binop t = false -> c' < bcol b ->
+  wf_block off b -> end_of_term k = true -> nohd_else k -> skip_eol k = (t, c') :: r -> is_binop t = false ->
+  (block_io b = true -> noelse t) -> c' < bcol b ->
   exists n0, forall n, n0 <= n -> p_block n off (r_block inner b ++ k) = Ok (er_block b, (t, c') :: r).
 Proof.
-  intros W E S N L. destruct inversion as (_ & _ & _ & _ & _ & _ & _ & HB & _).
-  rewrite <- S. apply HB; [exact W|]. split; [exact E|]. rewrite S. split; [exact N|right; exact L].
+  intros W E NE S N IO L. destruct inversion as (_ & _ & _ & _ & _ & _ & _ & HB & _).
+  rewrite <- S. apply HB; [exact W|]. split; [exact E|]. split; [exact NE|]. rewrite S.
+  split; [exact N|]. split; [right; exact L|exact IO].
 Qed.
 
 (* root level *)
@@ -872,14 +1058,15 @@ Proof.
   - cbn [wf_prog] in W. destruct W as (_ & Ws & NE & Wp).
     destruct (IH _ Wp) as (n2 & H2).
     set (k := nl 0 ++ r_prog inner p).
-    assert (F : efol 0 (stmt_bd s) (stmt_tm s) k).
-    { split; [reflexivity|]. unfold k. rewrite skip_nl.
+    assert (F : efol 0 (stmt_bd s) (stmt_tm s) (stmt_io s) k).
+    { split; [reflexivity|]. split; [exact I|]. unfold k. rewrite skip_nl.
       destruct (r_prog_skip p) as [->|(bl' & c' & s' & p' & r & -> & ->)]; [exact I|].
       destruct (r_stmt_head c' s' r) as (t0 & r0 & E0 & H0). rewrite E0.
       destruct (stmt_head_facts t0 H0) as (N1 & N2 & N3 & N4).
-      split; [exact N4|]. split.
+      split; [exact N4|]. split; [|split].
       - intros b Hb. right. cbn [wf_prog] in Wp. destruct Wp as (U & _). rewrite Hb in U. exact U.
-      - intros _ Ht. congruence. }
+      - intros _ Ht. congruence.
+      - intros _. apply stmt_head_noelse. exact H0. }
     destruct (HS s 0 c k Ws F) as (n1 & H1).
     exists (S (Nat.max n1 n2)). intros n Hn. fuel n.
     cbn [r_prog p_root]. rewrite skip_eols. fold k.
@@ -917,7 +1104,8 @@ Corollary block_layout_invariance : forall inner b off, wf_block off b ->
 Proof. exact block_inversion. Qed.
 
 Corollary dedent_ends_block : forall inner b off k t c' r,
-  wf_block off b -> end_of_term k = true -> skip_eol k = (t, c') :: r -> is_binop t = false -> c' < bcol b ->
+  wf_block off b -> end_of_term k = true -> nohd_else k -> skip_eol k = (t, c') :: r -> is_binop t = false ->
+  (block_io b = true -> noelse t) -> c' < bcol b ->
   exists n0, forall n, n0 <= n -> p_block n off (r_block inner b ++ k) = Ok (er_block b, (t, c') :: r).
 Proof. exact dedent_ends_block_k. Qed.
 
